@@ -79,7 +79,9 @@ def run_unit(unit, rec):
     wts = O.trapz_weights(d, **okw)
     A_ref = np.einsum("id,kd,d->ik", filters, sources, wts)  # m x n
     lat = AL.lattice(np.zeros(n), np.ones(n), (0.0, 1.0, 2.5)) if n <= 4 else np.vstack([AL.lattice(np.zeros(n), np.ones(n), (0.0, 2.5))[:: max(1, 2 ** n // 40)], np.eye(n), np.ones((1, n)) * 1.0])
-    for (kname, K), (bname, bl) in itertools.product(AL.K_menu(m), AL.baseline_menu(m)):
+    # a per-receptor baseline with an exact zero entry (a receptor without dark activity) in addition to the shared menu
+    bmenu = AL.baseline_menu(m) + [("vector-zero-entry", np.where(np.arange(m) == 1, 0.0, 0.125 + 0.25 * np.arange(m)))]
+    for (kname, K), (bname, bl) in itertools.product(AL.K_menu(m), bmenu):
         sig = dict(K=kname, baseline=bname, domain=dk, shape="%dx%d" % (m, n))
         kw = {}
         if K is not None:
